@@ -261,7 +261,7 @@ PROOF_NOTE = ("Trusted: Lean 4.33.0 kernel, axioms propext/Classical.choice/Quot
 MANIFEST_TEXT = {
     "C11": {
         "text": "Round-trip, shape and decode-iff theorems for ChannelData over all numbers and all payloads < 65536 bytes, and get∘add / wrong-size "
-                "theorems for every TURN attribute codec, proved in Lean over the model; the model is tied to internal/proto by replaying ~220k real "
+                "theorems for every TURN attribute codec, and the STUN/ChannelData demultiplexing rule (chanValid_iff_first_byte, stun_never_channeldata), proved in Lean over the model; the model is tied to internal/proto by replaying ~220k real "
                 "codec operations (all 65536 channel numbers) through the Lean definitions on every run.",
         "design_ref": "DESIGN.md §6 C11", "technique": "Lean 4 theorems (round-trip / decode-iff) + differential correspondence with the real codecs",
         "note": PROOF_NOTE + "pion/stun's TLV layer is abstract; XOR address wrong-size rejection is proved only partially (known finding F12 in the dependency).",
